@@ -101,6 +101,10 @@ def gen_case(rng):
         text = gen_ws(rng) + num + inner + unit + gen_ws(rng)
         return "valid:%s" % (unit or "no unit"), text, num, unit
     c = rng.randrange(8)
+    if c == 0 and rng.random() < 0.5:
+        return "malformed:unit letters repeated", gen_ws(rng) + gen_numeral(rng) + rng.choice(
+            ("mmm", "mmcm", "ppx", "pxpx", "xpx", "iin", "nin", "inin", "tpt", "ptpt", "cpc", "pcpc", "QQ", "qq", "%%",
+             "ccm", "mcm", "cmcm", "ppt", "ppc", "mmmm")) + gen_ws(rng), None, None
     if c == 0:
         return "malformed:unsupported unit", gen_ws(rng) + gen_numeral(rng) + rng.choice(UNSUPPORTED) + gen_ws(rng), None, None
     if c == 1:
